@@ -1,7 +1,9 @@
 //! C13 under Miri: the schema-only oracles (pairs incl. invalid/grey mutations, `FieldKey::as_bytes`
 //! - the only `unsafe` of the schema crate -, a few upgrade chains and typed round trips) on a
 //! small seeded workload. No storage, no tokio, no threads.
-//! usage: c13_miri <seed> <n_values>
+//! usage: c13_miri <seed> <n_values>      (default 32 values: ~3-4 min under Miri)
+//! run:   cd harness && MIRIFLAGS=-Zmiri-disable-isolation cargo +nightly miri run --offline -p v_schema --bin c13_miri -- 1 32
+//! The last line `MIRI-C13 done ...` summarises what was executed (parsed by c13's thorough tier).
 
 use v_schema::oracle::{pair_case, typed_roundtrip, upgrade_case};
 use vcore::{Rng, Stats};
@@ -9,11 +11,12 @@ use vcore::{Rng, Stats};
 fn main() {
     let args: Vec<String> = std::env::args().collect();
     let seed: u64 = args.get(1).and_then(|s| s.parse().ok()).unwrap_or(1);
-    let n: u64 = args.get(2).and_then(|s| s.parse().ok()).unwrap_or(200);
+    let n: u64 = args.get(2).and_then(|s| s.parse().ok()).unwrap_or(32);
     v_schema::generate::set_small(true);
     let mut st = Stats::default();
     let progress = std::env::var_os("C13_MIRI_PROGRESS").is_some();
     let t0 = std::time::Instant::now();
+    let mut keys_checked = 0u64;
     for i in 0..n {
         if progress {
             eprintln!("value {i} at {:.1}s", t0.elapsed().as_secs_f64());
@@ -32,6 +35,7 @@ fn main() {
         if b != expect {
             st.violation("C13/miri/as_bytes_differs", vcore::json!({"key": format!("{k:?}")}));
         }
+        keys_checked += 1;
     }
     for i in 0..(n / 40).max(1) {
         let mut rng = Rng::derive(seed ^ 0x7570, i);
@@ -51,10 +55,32 @@ fn main() {
     for i in &st.inconclusive {
         println!("MIRI-C13 inconclusive {i}");
     }
+    let c = |k: &str| st.counters.get(k).copied().unwrap_or(0);
     println!(
-        "MIRI-C13 done values={} evaluations={} violations={}",
+        "MIRI-C13 done values={} evaluations={} violations={} valid_pairs={} invalid_mutations={} grey_mutations={} \
+         accept_write_implies_accept_read={} invalid_rejected_set_field={} invalid_rejected_try_from={} \
+         stored_bytes_reads={} as_bytes_unsafe_checks={} upgrade_chains={} upgrades_applied={} upgrade_old_doc_reads={} \
+         typed_roundtrips={} typed_structs={} max_type_depth={} wall_s={:.0}",
         n,
         st.evaluations,
-        st.violations.len()
+        st.violations.len(),
+        c("pairs_valid"),
+        c("pairs_invalid"),
+        c("pairs_grey"),
+        c("oracle_accept_write_implies_accept_read"),
+        c("invalid_rejected:set_field"),
+        c("invalid_rejected:try_from"),
+        c("valid_accepted:stored_bytes")
+            + c("grey_accepted:stored_bytes")
+            + c("grey_rejected:stored_bytes")
+            + st.counters.iter().filter(|(k, _)| k.starts_with("invalid_rejected:stored_bytes")).map(|(_, v)| *v).sum::<u64>(),
+        keys_checked,
+        c("upgrade_chains"),
+        c("upgrades_applied"),
+        c("upgrade_old_doc_reads"),
+        c("typed_roundtrips"),
+        st.sets.get("typed_structs_roundtripped").map(|s| s.len()).unwrap_or(0),
+        c("max_type_depth"),
+        t0.elapsed().as_secs_f64(),
     );
 }
